@@ -301,6 +301,20 @@ func (cs *ContractSet) ParseFile(path string) error {
 			}
 		case "func", "closure":
 			key := strings.Fields(d.text)[0]
+			if f := strings.Fields(d.text); len(f) == 3 && f[1] == "=" {
+				// `closure parse.closeAll = getIO.closeAll`: the function value bound to this name is the one verified
+				// against the other contract; both names share one contract
+				other, ok := cs.Funcs[f[2]]
+				if !ok {
+					return fail(fmt.Errorf("contract %s is not defined (yet)", f[2]))
+				}
+				if _, dup := cs.Funcs[key]; dup {
+					return fail(fmt.Errorf("duplicate contract"))
+				}
+				cs.Funcs[key] = other
+				cur = nil
+				continue
+			}
 			cur = &FuncContract{Key: key, LoopInv: map[int][]*Clause{}, LoopDec: map[int]*Clause{}, File: path, Line: d.line}
 			if _, dup := cs.Funcs[key]; dup {
 				return fail(fmt.Errorf("duplicate contract"))
@@ -507,6 +521,26 @@ func (fc *FuncContract) addClause(d *rawDirective, path string) error {
 		fc.Ghosts = append(fc.Ghosts, g)
 	}
 	return nil
+}
+
+// ContractFromClauses builds a contract from clause lines ("requires ...", "ensures ...", "modifies ...") through the same
+// path as the file parser. Used for the assumed contracts of external functions.
+func ContractFromClauses(key string, clauses ...string) (*FuncContract, error) {
+	fc := &FuncContract{Key: key, LoopInv: map[int][]*Clause{}, LoopDec: map[int]*Clause{}, File: "<assumed contract of " + key + ">"}
+	for i, c := range clauses {
+		c = strings.TrimSpace(c)
+		kw := c
+		if k := strings.IndexAny(c, " \t["); k >= 0 {
+			kw = c[:k]
+		}
+		if !clauseKeywords[kw] {
+			return nil, fmt.Errorf("%s: clause %q does not start with a clause keyword", key, c)
+		}
+		if err := fc.addClause(&rawDirective{kw, strings.TrimSpace(c[len(kw):]), i + 1}, fc.File); err != nil {
+			return nil, fmt.Errorf("%s: %s: %v", key, c, err)
+		}
+	}
+	return fc, nil
 }
 
 func parseExpr(s string) (ast.Expr, error) {
